@@ -5,6 +5,8 @@ import HawkModel.Drv.Htb
 import HawkModel.Drv.Rio
 import HawkModel.Drv.Cmp
 import HawkModel.Drv.StrFn
+import HawkModel.Drv.Utf8
+import HawkModel.Drv.Rec
 
 def main (args : List String) : IO UInt32 := do
   match args with
@@ -15,4 +17,6 @@ def main (args : List String) : IO UInt32 := do
   | "rio" :: _ => Hawk.Drv.Rio.main; return 0
   | "cmp" :: _ => Hawk.Drv.Cmp.main; return 0
   | "strfn" :: _ => Hawk.Drv.StrFn.main; return 0
+  | "utf8" :: _ => Hawk.Drv.Utf8.main; return 0
+  | "rec" :: _ => Hawk.Drv.Rec.main; return 0
   | _ => IO.eprintln "usage: hawkdrv <area>"; return 2
